@@ -45,4 +45,30 @@ MUTANTS = [
     ),
     ("length-byte-popped-twice", P, "length = self._receive_buffer.wait_for_byte(peek=True)", "length = self._receive_buffer.wait_for_byte(peek=False)"),
     ("bad-block-dropped-silently", P, "            if response is None:\n                self._connection.send_data(bytes([self.NAK]))\n                return", "            if response is None:\n                return"),
+    # hand-over races (need parked line-level preemptions: gen/sweep families with {"pprob","hot"}, rush family / rush sweep)
+    (
+        "send-result-event-set-before-result-stored",
+        "secsgem/common/block_send_info.py",
+        "        self._result = BlockSendResult.SENT_OK if result else BlockSendResult.SENT_ERROR\n        self._result_trigger.set()\n\n"
+        "    def wait(self) -> bool:\n        \"\"\"Wait for the message is sent and a result is available.\"\"\"\n        self._result_trigger.wait()\n\n"
+        "        return self._result == BlockSendResult.SENT_OK",
+        "        self._result_trigger.set()\n        self._result = BlockSendResult.SENT_OK if result else BlockSendResult.SENT_ERROR\n\n"
+        "    def wait(self) -> bool:\n        \"\"\"Wait for the message is sent and a result is available.\"\"\"\n        self._result_trigger.wait()\n\n"
+        "        return self._result != BlockSendResult.SENT_ERROR",
+    ),
+    (
+        "dispatcher-triggered-before-block-queued",
+        "secsgem/common/protocol_dispatcher.py",
+        "        self._dispatch_queue.put((source, block))\n        self._dispatcher_thread_trigger.set()",
+        "        self._dispatcher_thread_trigger.set()\n        self._dispatch_queue.put((source, block))",
+    ),
+    (
+        "dispatcher-trigger-cleared-after-queue-check",
+        "secsgem/common/protocol_dispatcher.py",
+        "            self._dispatcher_thread_trigger.wait()\n            self._dispatcher_thread_trigger.clear()\n\n            if self._stop_dispatcher_thread:\n                continue\n\n"
+        "            while self._dispatch_queue.qsize() > 0:",
+        "            self._dispatcher_thread_trigger.wait()\n\n            if self._stop_dispatcher_thread:\n                continue\n\n"
+        "            if self._dispatch_queue.qsize() == 0:\n                self._dispatcher_thread_trigger.clear()\n                continue\n\n"
+        "            while self._dispatch_queue.qsize() > 0:",
+    ),
 ]
